@@ -109,7 +109,7 @@ def element_accessors(prog):
 
 def element_rules(rep, prog):
     """R1-E / R5 by interpretation: each element accessor is run with symbolic x, y, width, height, stride and a backing slice of symbolic
-    length in the four scenarios (x < w?) x (y < h?). In range it touches exactly data[y * stride + x] (resp. returns that index) and
+    length in the nine orderings of (x ? w) and (y ? h). In range it touches exactly data[y * stride + x] (resp. returns that index) and
     hands back that cell; out of range it touches nothing and returns None / panics. However the bounds test and the index maths are
     distributed over helpers, closures, `?`, match or bool::then."""
     from . import symalg as S, absint as A
@@ -124,20 +124,22 @@ def element_rules(rep, prog):
     want_idx = {("stride", "y"): Fraction(1), ("x",): Fraction(1)}
     for b, kind in accs:
         bad = []
-        for in_x in (True, False):
-            for in_y in (True, False):
+        FULL = {"lt": {"Lt": True, "Le": True, "Ge": False, "Gt": False, "Ne": True, "Eq": False},
+                "eq": {"Lt": False, "Le": True, "Ge": True, "Gt": False, "Ne": False, "Eq": True},
+                "gt": {"Lt": False, "Le": False, "Ge": True, "Gt": True, "Ne": True, "Eq": False}}
+        FLIP = {"lt": "gt", "eq": "eq", "gt": "lt"}
+        for rel_x in ("lt", "eq", "gt"):
+            for rel_y in ("lt", "eq", "gt"):
+                in_x, in_y = rel_x == "lt", rel_y == "lt"
                 touched = []
 
-                def orc(op, a_, b_, in_x=in_x, in_y=in_y):
+                def orc(op, a_, b_, rel_x=rel_x, rel_y=rel_y):
                     if S.sym("len") in (a_, b_):
                         return True          # the computed index against the backing length: Inner::new's invariant (R3), not this rule's
                     for p_, q_, flip in ((a_, b_, False), (b_, a_, True)):
-                        for var, dim, inr in ((S.sym("x"), S.sym("w"), in_x), (S.sym("y"), S.sym("h"), in_y)):
+                        for var, dim, rel in ((S.sym("x"), S.sym("w"), rel_x), (S.sym("y"), S.sym("h"), rel_y)):
                             if p_ == var and q_ == dim:
-                                res = {"Lt": inr, "Ge": not inr, "Le": inr, "Gt": not inr, "Eq": False, "Ne": True}
-                                if flip:
-                                    res = {"Gt": inr, "Le": not inr, "Ge": inr, "Lt": not inr, "Eq": False, "Ne": True}
-                                return res.get(op)
+                                return FULL[FLIP[rel] if flip else rel].get(op)
                     return None
 
                 def m_data_index(it, args, c, d, touched=touched):
@@ -177,9 +179,10 @@ def element_rules(rep, prog):
                 except A.Panic:
                     outcome, r = "panics", None
                 except A.Undecided as e:
-                    raise common.Infra("C11.R1: %s could not be interpreted for x %s w, y %s h (%s)" % (b.path.split("inner::")[-1], "<" if in_x else ">=", "<" if in_y else ">=", e))
+                    raise common.Infra("C11.R1: %s could not be interpreted for x %s w, y %s h (%s)" % (b.path.split("inner::")[-1], rel_x, rel_y, e))
                 inside = in_x and in_y
-                tag = "x %s w, y %s h" % ("<" if in_x else ">=", "<" if in_y else ">=")
+                SYM_ = {"lt": "<", "eq": "=", "gt": ">"}
+                tag = "x %s w, y %s h" % (SYM_[rel_x], SYM_[rel_y])
 
                 def is_idx(v):
                     try:
@@ -206,7 +209,7 @@ def element_rules(rep, prog):
                     if kind.startswith("panic") and outcome != "panics":
                         bad.append("%s: returns %s instead of panicking" % (tag, str(r)[:40]))
         short = b.path.split("util::buf::")[-1]
-        rep.inst("C11.R1", "%s in the four (x ? w, y ? h) scenarios: in range exactly data[y*stride + x], out of range nothing: %s" % (short, not bad), config=cfg)
+        rep.inst("C11.R1", "%s in the nine orderings of (x ? w, y ? h): in range exactly data[y*stride + x], out of range nothing: %s" % (short, not bad), config=cfg)
         if bad:
             rep.violate("C11.R1", "R1|element|%s" % b.path, b.where(), "%s: %s" % (short, bad[0]), config=cfg)
         else:
